@@ -248,6 +248,10 @@ func (n *RaftNode) Restore(rc io.ReadCloser) error {
 		if err := n.db.LoadSnapshot(reader); err != nil {
 			return err
 		}
+
+		// the store has changed underneath the balloon: the in-memory
+		// cache of the hyper tree must be rebuilt from it
+		n.balloon.RebuildCache()
 	}
 
 	n.loadState()
